@@ -41,7 +41,7 @@ def runCnfCase (line : String) : String × String :=
   let l := parseLitTy (field fs "ty")
   let cfg := field fs "cfg" == "1"
   let ls := field fs "ls" == "1"
-  let full := unhex (field fs "d")
+  let full := dataField (field fs "d")
   let (data, fault) := match (field fs "k").toNat? with
     | some k => (full.take k, true)
     | none => (full, false)
